@@ -392,10 +392,7 @@ class Monitor:
         ctx = self.ctx
         what = kw.pop("_what", None)
         self._last_arg_ids = {id(a) for a in args} | {id(v) for v in kw.values()}
-        import time as _t
-        _t0 = _t.time()
         before = self.snapshot((args, kw))
-        _t1 = _t.time()
         nobj = _count_leaves(before)
         old = signal.signal(signal.SIGALRM, _on_alarm)
         try:
@@ -415,18 +412,13 @@ class Monitor:
         except BaseException as ex:  # UFL has error classes deriving from BaseException (ArityMismatch, ...)
             res = ex
             status = "raised"
-        _t2 = _t.time()
         after = self.snapshot((args, kw))
-        if getattr(ctx, "debug_slow", None) is not None and _t.time() - _t0 > 1.0:
-            ctx.debug_slow.append((op, round(_t1 - _t0, 2), round(_t2 - _t1, 2), round(_t.time() - _t2, 2), ctx.case_index))
         ctx.count("monitored_calls")
         ctx.count("input_objects_compared", nobj)
         ctx.count("calls_returned" if status == "ok" else "calls_raised")
         ctx.covered("ops", op)
         if status == "raised":
             ctx.covered("ops_raised", op + ":" + type(res).__name__)
-            if getattr(ctx, "debug_raised", None) is not None:
-                ctx.debug_raised.append((op, type(res).__name__, str(res)[:150]))
         self.trace.append(op if status == "ok" else op + "!")
         self._report(op, "arg", (args, kw), before, after, what)
         return status, res
